@@ -115,6 +115,7 @@ def run(p):
              'axis_rel': 0.0, 'orientation_sin': 0.0, 'relerr_rel': 0.0, 'k95': 0.0}
     # (a) rotation matrix
     grid = [(la, lo) for la in LATS for lo in LONS]
+    kept_R = None
     for i in range(len(grid) + p.n(1500, 60000)):
         lat, lon = grid[i] if i < len(grid) else latlon(rng)
         inp = [lat, lon]
@@ -123,6 +124,12 @@ def run(p):
         if not ok:
             continue
         p.case('rotation', inp)
+        # a matrix handed out earlier is the caller's: producing another station's matrix does not change it
+        if kept_R is not None:
+            p.check(np.array_equal(np.asarray(kept_R[0], dtype=float), kept_R[1]), 'rot:earlier-result-changed', 'rotation_kept',
+                    kept_R[2], np.asarray(kept_R[0], dtype=float).tolist(), kept_R[1].tolist(),
+                    f'R = rotation_matrix({kept_R[2][0]!r}, {kept_R[2][1]!r}); {call}; R')
+        kept_R = (R, np.array(R, dtype=float, copy=True), inp)
         R = np.asarray(R, dtype=float)
         orth = float(np.linalg.norm(R.T @ R - np.eye(3), 2))
         det = float(np.linalg.det(R))
